@@ -393,7 +393,7 @@ pub fn run_c09(ctx: &mut Ctx) {
         x default image inside/outside the animation x buffers pre-filled with 0x00 / 0xFF / random; successive next_frame results compared with the frames the file was built from: frame-control values, OutputInfo, the first line_size*height bytes, \
         bytes beyond them untouched, end-of-image afterwards; token traces compared with the Lean Reader model; non-trivial = at least 2 frames or a sub-frame; distinct = hash(file, prefill)".into();
     let mut rng = ctx.rng.fork(1);
-    let n = ctx.n(150, 3000);
+    let n = ctx.n(1200, 12000);
     let mut runs = vec![];
     let mut traces = vec![];
     for i in 0..n {
